@@ -301,7 +301,9 @@ def date_cases():
     ts = table(["s"], {"s": "str"}, [(d.isoformat(),) for d in D])
     cases.append(("parse_date", "parse_date", M("parse_date", C("s")), ts, lambda r: r[0]))
     # explicit, non-ISO formats (day first: ambiguous for days <= 12 unless the format is honoured)
-    ts2 = table(["s"], {"s": "str"}, [(d.strftime("%d/%m/%Y"),) for d in D])
+    # (the first rows are ambiguous dates, so that a parser that guesses the format from the data guesses wrong)
+    Dr = D[8:] + D[:8]
+    ts2 = table(["s"], {"s": "str"}, [(d.strftime("%d/%m/%Y"),) for d in Dr])
     cases.append(("parse_date_fmt", "parse_date", M("parse_date", C("s"), V("%d/%m/%Y")), ts2, lambda r: iso(datetime.datetime.strptime(r[0], "%d/%m/%Y").date())))
     DT = [datetime.datetime(d.year, d.month, d.day, h, m, sec) for d in D[::7] for (h, m, sec) in ((0, 0, 0), (12, 34, 56), (23, 59, 59))]
     tdt = table(["t0"], {"t0": "datetime"}, [(x,) for x in DT])
@@ -309,7 +311,8 @@ def date_cases():
     cases.append(("format_datetime", "format_datetime", M("format_datetime", C("t0")), tdt, lambda r: r[0].strftime("%Y-%m-%d %H:%M:%S")))
     tpd = table(["s"], {"s": "str"}, [(x.strftime("%Y-%m-%d %H:%M:%S"),) for x in DT])
     cases.append(("parse_datetime", "parse_datetime", M("parse_datetime", C("s")), tpd, lambda r: iso(datetime.datetime.strptime(r[0], "%Y-%m-%d %H:%M:%S"))))
-    tpd2 = table(["s"], {"s": "str"}, [(x.strftime("%d/%m/%Y %H.%M.%S"),) for x in DT])
+    DTr = [x for x in DT if x.day <= 12] + [x for x in DT if x.day > 12]
+    tpd2 = table(["s"], {"s": "str"}, [(x.strftime("%d/%m/%Y %H.%M.%S"),) for x in DTr])
     cases.append(("parse_datetime_fmt", "parse_datetime", M("parse_datetime", C("s"), V("%d/%m/%Y %H.%M.%S")), tpd2, lambda r: iso(datetime.datetime.strptime(r[0], "%d/%m/%Y %H.%M.%S"))))
     cases.append(("format_datetime_fmt", "format_datetime", M("format_datetime", C("t0"), V("%d/%m/%Y %H.%M.%S")), tdt, lambda r: r[0].strftime("%d/%m/%Y %H.%M.%S")))
     tp = table(["t0", "t1"], {"t0": "datetime", "t1": "datetime"}, [(x, x + datetime.timedelta(seconds=k)) for x in DT for k in (-86401, -1, 0, 1, 3600)])
